@@ -31,3 +31,11 @@ package common
 //@   let four = tx.Type() >= 4 && cbor.defArrayAt(c, 0) && cbor.hdrCount(c, 0) == 4
 //@   ensures four: len(c) > 0 && four ==> err == nil && size == len(c) - 1
 //@   ensures other: len(c) > 0 && !four ==> err == nil && size == len(c)
+
+// C32: the coin held by the collateral inputs, as a recursive sum over the input list
+// (an input whose UTxO has no output or no amount contributes 0).
+//@ pureiface Transaction.Collateral Transaction.CollateralReturn Transaction.TotalCollateral LedgerState.UtxoById TransactionOutput.Amount TransactionOutput.Assets
+//@ spec func collAmt(inputs []TransactionInput, ls LedgerState, i int) Int = ite(ls.UtxoById$0(inputs[i]).Output == nil || ls.UtxoById$0(inputs[i]).Output.Amount() == nil, 0, val(ls.UtxoById$0(inputs[i]).Output.Amount()))
+//@ spec rec func collSum(inputs []TransactionInput, ls LedgerState, n int) Int = ite(n <= 0, 0, collSum(inputs, ls, n-1) + collAmt(inputs, ls, n-1))
+// the coin a collateral-return output gives back (0 when there is none)
+//@ spec func collReturnAmt(tx Transaction) Int = ite(tx.CollateralReturn() == nil || tx.CollateralReturn().Amount() == nil, 0, val(tx.CollateralReturn().Amount()))
